@@ -343,7 +343,12 @@ static int generate_password(const char *keyfile)
         ascon_clean(password, sizeof(password));
         return 0;
     }
-    safe_file_close(&file);
+    if (!safe_file_close(&file)) {
+        perror(keyfile);
+        safe_file_delete(&file);
+        ascon_clean(password, sizeof(password));
+        return 0;
+    }
 
     /* Clean up and exit */
     ascon_clean(password, sizeof(password));
@@ -525,7 +530,11 @@ static int encrypt_file(const char *infilename, const char *outfilename)
 cleanup:
     /* Clean up and exit */
     safe_file_close(&input);
-    safe_file_close(&output);
+    if (!safe_file_close(&output) && exit_val) {
+        /* A write error that only shows up when the file is closed */
+        perror(outfilename);
+        exit_val = 0;
+    }
     ascon_clean(&header, sizeof(header));
     ascon_clean(&siv, sizeof(siv));
     ascon_clean(&siv_copy, sizeof(siv_copy));
@@ -643,7 +652,11 @@ static int decrypt_file(const char *infilename, const char *outfilename)
 cleanup:
     /* Clean up and exit */
     safe_file_close(&input);
-    safe_file_close(&output);
+    if (!safe_file_close(&output) && exit_val) {
+        /* A write error that only shows up when the file is closed */
+        perror(outfilename);
+        exit_val = 0;
+    }
     ascon_clean(&header, sizeof(header));
     ascon_clean(&siv_copy, sizeof(siv_copy));
     ascon_clean(kn, sizeof(kn));
